@@ -181,14 +181,33 @@ def main(path):
         owner = import_class(f"{rel}::{'.'.join(parts[:-1])}") if len(parts) > 1 else importlib.import_module(rel[:-3].replace("/", "."))
         ret = st.get("returns")
 
-        def stub(*a, _ret=ret, _ev=st.get("event"), **k):
+        orig = owner.__dict__.get(parts[-1]) if hasattr(owner, "__dict__") else None
+        import inspect as _inspect
+        target_fn = orig.fget if isinstance(orig, property) else orig
+        try:
+            sig = _inspect.signature(target_fn) if target_fn is not None else None
+        except (TypeError, ValueError):
+            sig = None
+
+        def stub(*a, _ret=ret, _ev=st.get("event"), _sig=sig, **k):
             if _ev:
                 ev = Event(_ev, a, k)
                 log.append(ev)
                 guards_cb(ev)
+            if isinstance(_ret, str) and _ret not in ("int", "bool", "bytes", "str", "real", "any"):
+                env = dict(ns)
+                if _sig is not None:
+                    try:
+                        env.update(_sig.bind(*a, **k).arguments)
+                    except TypeError:
+                        pass
+                return eval(_ret, env)  # noqa: S307
             if _ret is None or isinstance(_ret, str):
                 return {"int": 0, "bool": False, "bytes": b"", "str": "", "real": 0.0}.get(_ret)
             return decode(None, _ret, ns, log, guards_cb)
+        if isinstance(orig, property):
+            setattr(owner, parts[-1], property(stub))
+            continue
         setattr(owner, parts[-1], stub)
     fixups = contract.get("replay") or {}
     for vname, decl in contract["vars"].items():
